@@ -266,13 +266,19 @@ def suite_volume(ctx):
         with_mu = bool((t // 4) % 2)
         with_eps = bool((t // 2) % 2)
         if with_mu:
-            props['mu_r'] = rng.uniform(0.5, 3, shp)
+            # every third one: permeabilities within 1e-5 (1e-9) of one
+            props['mu_r'] = rng.uniform(0.5, 3, shp) if t % 3 else \
+                1.0 + rng.uniform(-1, 1, shp)*[1e-5, 1e-9][(t // 3) % 2]
         if with_eps:
             props['epsilon_r'] = rng.uniform(1, 80, shp)
         mapping = 'Conductivity'
         model = emg3d.Model(grid, mapping=mapping, **props)
-        freq = float(rng.choice([1.0, 3.7e4, 2.5e7, -1.0, -4.0e5, -0.37]))
-        sf = emg3d.Field(grid, frequency=freq)
+        fopts = [1.0, 3.7e4, 2.5e7, -1.0, -4.0e5, -0.37,
+                 # integer-typed frequencies / Laplace parameters
+                 -2, np.int64(-3), 5, -7]
+        freq_in = fopts[(t*7 + int(rng.integers(0, 2))) % len(fopts)]
+        freq = float(freq_in)
+        sf = emg3d.Field(grid, frequency=freq_in)
         try:
             # the operator of a model must not depend on how often it was
             # built: build it twice from the same Model instance (every
